@@ -547,15 +547,33 @@ flush:
 		if !moved {
 			fired := false
 			emB := h.emitted["c"] + h.emitted["s"]
+			quiet := true
 			for _, p := range []*labPeer{r.c, r.s} {
-				if !estOf(p) && p.fire() {
-					fired = true
+				if estOf(p) {
+					continue
+				}
+				st, _ := p.state.Load().(string)
+				fl := p.flightTag()
+				em := h.emitted[p.name]
+				if !p.fire() {
+					continue
+				}
+				fired = true
+				if quiet = waitQuiet13(r, 3*time.Second); !quiet {
+					break
+				}
+				h.absorb()
+				// C17 timer law, per endpoint, in any state the reliable phase passes through (also behind a divergence of the
+				// script): every flight of this handshake is retransmittable, so a waiting endpoint re-sends on its timer
+				if st == "Waiting" && fl != "F0" && h.emitted[p.name] == em && !hsReturned(p) {
+					law("C17 timer law: nothing in flight, timer of %s in %s (waiting, handshake pending) emitted nothing (reliable phase, round %d)",
+						p.name, fl, round)
 				}
 			}
 			if !fired && estOf(r.s) && r.s.fire() {
 				fired = true
 			}
-			if !fired || !waitQuiet13(r, 3*time.Second) {
+			if !fired || !quiet || !waitQuiet13(r, 3*time.Second) {
 				break
 			}
 			h.absorb()
